@@ -616,39 +616,47 @@ def desugar_ref_patterns(body, log):
 
 
 def desugar_continue(body, log):
-    """`for .. { A; if C { continue; } REST }` -> `for .. { A; if C { } else { REST } }` where the
-    `if` is a statement directly in the loop body, has no else, and `continue;` is its only
-    statement. (Verus does not support `continue` in for-loops; the two forms are equivalent.)"""
+    """`for .. { A; if C { continue; } REST }` -> `for .. { A; if C { } else { REST } }` where the `if` has no
+    else and `continue;` is its only statement, REST runs to the end of the block that encloses the `if`, and
+    nothing but closing braces follows that block inside the loop body (so skipping REST is skipping the rest of
+    the iteration; true for the loop body itself and for the else-blocks this desugaring creates).
+    (Verus does not support `continue` in for-loops; the two forms are equivalent.)"""
     count = 0
     while True:
         hit = None
-        for kw, bo, bc in loop_spans(body):
+        loops = loop_spans(body)
+        for kw, bo, bc in loops:
             for if_pos, cstart, bopen, bclose in _find_ifs(body):
                 if not (bo < if_pos < bc):
                     continue
                 inner = re.sub(r"//[^\n]*", "", body[bopen + 1:bclose]).strip()
                 if inner != "continue;":
                     continue
-                # directly in this loop body? depth between bo and if_pos must be 1
-                depth = 0
+                # innermost loop containing the `if`
+                if any(bo < kw2 and bc2 < bc and bo2 < if_pos < bc2 for kw2, bo2, bc2 in loops):
+                    continue
+                stack = []
                 for pos, ch in _scan_tokens(body, bo, if_pos):
                     if ch == "{":
-                        depth += 1
+                        stack.append(pos)
                     elif ch == "}":
-                        depth -= 1
-                if depth != 1:
+                        stack.pop()
+                if not stack:
+                    continue
+                blk_close = match_brace(body, stack[-1])
+                if body[blk_close:bc + 1].strip(" \n\t}") != "":
                     continue
                 nxt = _skip_ws_comments(body, bclose + 1)
                 if body.startswith("else", nxt):
                     raise ExtractError("continue-if with an else branch: desugaring not defined")
-                hit = (bopen, bclose, bc)
+                hit = (bopen, bclose, blk_close)
                 break
             if hit:
                 break
         if not hit:
             break
-        bopen, bclose, bc = hit
-        body = body[:bopen] + "{ }" + " else {" + body[bclose + 1:bc] + "}\n" + body[bc:]
+        bopen, bclose, blk_close = hit
+        body = body[:bopen] + "{ }" + " else {" + body[bclose + 1:blk_close] + "}\n" + body[blk_close:]
         count += 1
     if re.search(r"\bcontinue\s*;", re.sub(r"//[^\n]*", "", body)):
         raise ExtractError("`continue` in a shape the desugaring does not cover")
@@ -704,7 +712,48 @@ def desugar_enumerate(body, log):
     return body
 
 
-DESUGARINGS = {"enumerate": desugar_enumerate, "continue": desugar_continue, "let_chains": desugar_let_chains, "deref_pat": desugar_deref_patterns, "ref_pat": desugar_ref_patterns}
+def desugar_match_continue(body, log):
+    """Inside a for-loop body: `let X = match E { Some(P) => V, None => continue, }; REST`
+    -> `if let Some(P) = E { let X = V; REST }`, where REST runs to the end of the enclosing block and nothing but
+    closing braces follows that block inside the loop body (so "skip REST" is "skip the rest of this iteration").
+    (Verus does not support `continue` in for-loops; the two forms run the same statements.)"""
+    count = 0
+    pat = re.compile(r"let (\w+) = match ([^{};]+?) \{\s*Some\((\w+)\) => ([^,{};]+),\s*None => continue,?\s*\};")
+    while True:
+        hit = None
+        for kw, bo, bc in loop_spans(body):
+            for m in pat.finditer(body, bo, bc):
+                # innermost block enclosing the statement
+                stack = []
+                for pos, ch in _scan_tokens(body, bo, m.start()):
+                    if ch == "{":
+                        stack.append(pos)
+                    elif ch == "}":
+                        stack.pop()
+                if not stack:
+                    continue
+                blk_close = match_brace(body, stack[-1])
+                if body[blk_close:bc + 1].strip(" \n\t}") != "":
+                    raise ExtractError("match-continue: statements follow the enclosing block inside the loop body")
+                # innermost loop only
+                if any(bo < kw2 < m.start() and bc2 > m.end() for kw2, bo2, bc2 in loop_spans(body) if (kw2, bo2, bc2) != (kw, bo, bc)):
+                    continue
+                hit = (m, blk_close)
+                break
+            if hit:
+                break
+        if not hit:
+            break
+        m, blk_close = hit
+        x, e, pvar, v = m.group(1), m.group(2).strip(), m.group(3), m.group(4).strip()
+        body = body[:m.start()] + f"if let Some({pvar}) = {e} {{ let {x} = {v};" + body[m.end():blk_close] + "}\n" + body[blk_close:]
+        count += 1
+    if count:
+        log["rewrites"].append(f"desugar match-continue: {count} `let X = match E {{ Some(P) => V, None => continue }}; REST` -> `if let Some(P) = E {{ let X = V; REST }}` in for-loop bodies")
+    return body
+
+
+DESUGARINGS = {"match_continue": desugar_match_continue, "enumerate": desugar_enumerate, "continue": desugar_continue, "let_chains": desugar_let_chains, "deref_pat": desugar_deref_patterns, "ref_pat": desugar_ref_patterns}
 
 
 def erase_error_values(body, prefixes, log, replacement="VerifError {}", structs=False):
